@@ -23,5 +23,7 @@ def run(repo: Repo, tier, rep: Report):
     m = check_file_format(repo, rep, "snapshots")
     m += check_open_file_decorator(repo, rep)
     rep.floor("file-format rule instances (snapshots)", m, 35)
+    from sa.query_check import check_enumeration_dependency
+    check_enumeration_dependency(repo, rep, common.enumeration_users(repo, ['generate_snapshots']))
     rep.assume(*common.CTOR_ASSUMPTIONS)
     rep.assume("gzip/bz2 openers and Python codecs behave as documented")
